@@ -2,7 +2,7 @@
 #include <stdio.h>
 #include <stdlib.h>
 namespace boost { namespace numeric {
-namespace odeint { VerifOdeintScript verif_odeint = {1, -1, 0, 0, 0, {}}; }
+namespace odeint { VerifOdeintScript verif_odeint = {1, -1, 0, 0, 0, 0, {}}; }
 namespace ublas {
 void verif_ublas_die(const char *what, long i, long j, long m, long n) {
     fprintf(stdout, "{\"ev\":\"shim_abort\",\"what\":\"%s\",\"i\":%ld,\"j\":%ld,\"M\":%ld,\"N\":%ld}\n", what, i, j, m, n);
